@@ -71,7 +71,8 @@ theorem C25_value (wf : Op → Nat) (ops : List Op) (obj : ObjId) (pre post : Li
 /-- C25, "marks(), get_marks(i) and spans() report this same marking" — PARTIAL: proved for `get_marks`
     and `spans`: for every unit index `i` of an element, the span that receives that element's text
     carries exactly `get_marks(i)`.  Missing: the same for `marks()` (its accumulator merges ranges; the
-    run compares it with the other two at every unit position instead: 0 differences after the fixes). -/
+    run compares it with the other two at every unit position instead: 0 differences after the fixes).
+    SUPERSEDED by `C25_marks_agree` (+ `C25_marks_shape`, `C25_marks_maximal`) in `Props/C25Full.lean`. -/
 theorem C25_marks_agree_partial (wf : Op → Nat) (W : Bytes → Nat) (ops : List Op) (obj : ObjId)
     (pre post : List Item) (e : OpId) (t : Op) (i : Nat)
     (h : items ops obj = pre ++ .elem e t :: post) (hb : t.isBlock = false)
@@ -116,7 +117,10 @@ example :
     expand-before or an end without expand-after; otherwise it is keyed on `c`, before the mark op.
     So: at the START of a mark the text is outside unless `expand.before`; at the END it is inside iff
     `expand.after`.  Missing: several mark ops / tombstones in the gap (the candidate stack), where the
-    model is tied to the code by the run only. -/
+    model is tied to the code by the run only.
+    SUPERSEDED by `C25_expand_boundary` / `C25_expand_boundary_iff` in `Props/C25Full.lean` (any number of mark
+    ops and tombstones in the gap); the literal clause is refuted there for concurrent marks
+    (`C25_expand_boundary_refuted`). -/
 theorem C25_expand_boundary_partial (wf : Op → Nat) (ops : List Op) (target : Nat) (q : IQ) (c : Key) (w : Nat)
     (p : Nat) (m nxt : Op) (rest : List (Nat × Op))
     (hq1 : q.done = false) (hq2 : q.stopped = false) (hq3 : q.candidates = [])
@@ -137,7 +141,8 @@ example : (insertQuery (ow gOne .utf8 true) d20 (.id ⟨1, [0xaa]⟩) 2).toOptio
     (before fix d5de6e0cf the begin op stayed in the transaction).  In general a failing `mark` appends
     nothing — PARTIAL: under the hypothesis `hend` that an end anchor which resolves before the begin op is
     inserted still resolves afterwards (a zero-width op never makes an index invalid; not proved here,
-    the code relies on the same fact: its second `query_insert_at(end)?` comes after the insertion). -/
+    the code relies on the same fact: its second `query_insert_at(end)?` comes after the insertion).
+    SUPERSEDED by `C25_mark_error_appends_nothing` in `Props/C25Full.lean`, which proves `hend`. -/
 theorem C25_mark_error_appends_nothing_partial (wf : Op → Nat) (ops : List Op) (t : Tx) (obj : ObjId) (start stop : Nat)
     (before after : Bool) (name : Bytes) (value : Scalar) (err : EditErr)
     (h : (localMark wf ops t obj start stop before after name value).2 = .error err)
